@@ -35,6 +35,8 @@ type World struct {
 	// violation with that text
 	Invariants []func() string
 	InvFail    []string
+	// FrameMutations: frames that changed between Send and delivery (see memconn)
+	FrameMutations []string
 }
 
 // Event is one application-level observation.
